@@ -11,6 +11,7 @@ HARNESSES = [
     dict(name="matrix", src="props/matrix.cpp", variant="plain"),
     dict(name="filter_asan", src="props/filter.cpp", variant="asan"),
     dict(name="formats", src="props/formats.cpp", variant="plain"),
+    dict(name="combine", src="props/combine.cpp", variant="plain"),
     dict(name="formats_asan", src="props/formats.cpp", variant="asan"),
 ]
 
@@ -119,4 +120,27 @@ CHECKS["C10"] = dict(
                  "YUV formats have no exact rule in the statement: only reader agreement / accessor equivalence are asserted for them",
                  "float and YUV formats address memory directly even with accessors installed; this is observed and labelled, not asserted against (the statement speaks about identical behaviour)",
                  "little-endian host"],
+)
+
+CHECKS["C01"] = dict(
+    level="exploration",
+    rule=("rapidcheck one-row scenes (width 1-67, random x offsets, padded/negative strides, fenced buffers): all 63 operator codes "
+          "(40% mass on CLEAR..ADD), source bits or solid, mask none/unified/component-alpha (bits or solid), formats from every "
+          "packed RGB(A)/A format incl. 10 bpc, sRGB and float with 45% mass on the formats that have specialised paths, pixel "
+          "channels biased to {0,1,max/2,max/2+1,max-1,max}, premultiplied-valid and arbitrary values, repeating destinations "
+          "(opaque-destination column of the operator table). Oracle by class: exact (Porter-Duff + ADD, all formats <= 8 bpc): "
+          "bit-exact vs. integer model (round-to-nearest products, saturating sums, replication/truncation); float pipeline: within "
+          "1 + 1/64 destination step of the long-double Render/PDF equations (1e-4 for float destinations), premultiplied inputs "
+          "only; PDF blend modes in the 8-bit pipeline: within 2 steps of the equation on exact-rule-masked inputs. HSL with a "
+          "component-alpha mask is only checked to leave the destination (no equation in the statement). Non-trivial = operator "
+          "reads both operands or a mask is present, and some source alpha strictly between 0 and 1 or a mask."),
+    jobs=[
+        dict(harness="combine", prop="combine", cases=T(150000, 1500000), procs=T(6, 12)),
+        dict(harness="combine", prop="combine", cases=T(15000, 200000), procs=T(1, 2), env={"PIXMAN_DISABLE": "sse2 ssse3 mmx"}, tag="combine_nosimd"),
+        dict(harness="combine", prop="combine", cases=T(15000, 200000), procs=T(1, 2), env={"PIXMAN_DISABLE": "fast sse2 ssse3 mmx"}, tag="combine_general"),
+    ],
+    floor=T(200000, 5000000), nt_floor=T(50000, 1000000),
+    assumptions=["reference models in harness/ref_combine.hpp are written from the Render protocol and PDF 1.7 blend-mode equations",
+                 "real-valued classes are asserted on premultiplied-valid inputs only (the statement says 'applied to the premultiplied inputs'); arbitrary values are asserted in the exact class",
+                 "tolerance 2 steps for the 8-bit blend modes (MULTIPLY rounds three products separately: 1.5 steps worst case on the unchanged code)"],
 )
